@@ -53,9 +53,7 @@ def _same(a, b):
 @unit("C05", "System_R.reorder + Rvectors.reorder: matrices, centres, both shift sets and caches", scope="shape:3 Wannier functions, every permutation; 5 R-vectors; Ham and vector-valued AA", expect_min=5)
 def _reorder(U):
     NP, FFT, RV0, g = build_fft(U)
-    RV = U.klass(F_RV, "Rvectors", globs=g, rewrite_comps=False,
-                 only=("__init__", "reorder", "set_fft_R_to_k", "apply_expdK", "derivative", "R_to_k", "cRvec", "cRvec_shifted", "shifts_diff_cart", "shifts_diff_red",
-                       "shifts_left_cart", "shifts_right_cart", "nRvec", "nshifts_left", "nshifts_right", "clear_cached"))
+    RV = RV0
     reorder = U.fn(F_SR, "System_R.reorder", globs=dict(np=NP), model=False, rewrite_comps=False)
     perms = list(itertools.permutations(range(NW)))
 
@@ -69,7 +67,10 @@ def _reorder(U):
         me.rvec = RV(lattice=LATT, shifts_left_red=tau.copy(), shifts_right_red=None if taur is None else taur.copy(), iRvec=RS)
         H = sym_cplx_array("H", (len(RS), NW, NW))
         A = sym_cplx_array("A", (len(RS), NW, NW, 3))
-        me._XX_R = {"Ham": H.copy(), "AA": A.copy()}
+        # EVERY real-space matrix of the system is relabelled, whatever its name (also names no list in the code mentions)
+        O = sym_cplx_array("O", (len(RS), NW, NW, 3))
+        Z = sym_cplx_array("Z", (len(RS), NW, NW))
+        me._XX_R = {"Ham": H.copy(), "AA": A.copy(), "OO": O.copy(), "SHA": O.copy() * 2, "my_own_matrix": Z.copy()}
         me.wannier_centers_cart = sym_real_array("wcc", (NW, 3))
         wcc0 = me.wannier_centers_cart.copy()
         me.wannier_names = rnp.array(["s", "px", "py"])
@@ -84,6 +85,10 @@ def _reorder(U):
         reorder(me, p)
         ok = all(_same(me._XX_R["Ham"][(iR, a, b)], H[iR, p[a], p[b]]) for iR in range(len(RS)) for a in range(NW) for b in range(NW))
         ok = ok and all(_same(me._XX_R["AA"][(iR, a, b, c)], A[iR, p[a], p[b], c]) for iR in range(len(RS)) for a in range(NW) for b in range(NW) for c in range(3))
+        ok = ok and set(me._XX_R) == {"Ham", "AA", "OO", "SHA", "my_own_matrix"}
+        ok = ok and all(_same(me._XX_R["OO"][(iR, a, b, c)], O[iR, p[a], p[b], c]) and _same(me._XX_R["SHA"][(iR, a, b, c)], O[iR, p[a], p[b], c] * 2)
+                        for iR in range(len(RS)) for a in range(NW) for b in range(NW) for c in range(3))
+        ok = ok and all(_same(me._XX_R["my_own_matrix"][(iR, a, b)], Z[iR, p[a], p[b]]) for iR in range(len(RS)) for a in range(NW) for b in range(NW))
         U.ensure("(P1) X'[R,a,b,..] = X[R,p(a),p(b),..] for every matrix, every R and every trailing index", ok)
         U.ensure("(P1) centres and Wannier names are permuted the same way", all(me.wannier_centers_cart[a, j] is wcc0[p[a], j] for a in range(NW) for j in range(3))
                  and list(me.wannier_names) == [["s", "px", "py"][i] for i in p])
